@@ -215,7 +215,7 @@ OBLIGATIONS = [
                     "strict content, record order, registered and default namespaces are identical before and after; repeated calls agree; the JSON container is unchanged; PROV-N text unchanged",
                bounds="documents as C01.values (3 (quick) / 6 value kinds x 5 namespace modes) and C01.structure (4 / 8 kinds, two records / bundle); each exporter followed by itself or one of the next two (21 ordered pairs)",
                assumptions=_ASSUME, functions=["prov.serializers.provjson.encode_json_document", "prov.model.ProvDocument.__eq__/unified/flattened", "prov.model.ProvBundle.get_record/get_provn"],
-               budget_s=(250, 900), per_path_s=(30, 60)),
+               budget_s=(400, 900), per_path_s=(30, 60)),
     Obligation(name="all_exports", fn=all_exports, shards=_all_shards,
                desc="Stage A enumerates document-construction paths; on each witness Stage B runs all 15 exporters (json with options, xml +/- force_types, provn, rdf, graph, dot +/- labels, ==, hash, "
                     "unified, flattened, get_provn, lookups) and all 225 ordered pairs: document snapshot unchanged, same output on repetition and on a twin document built by the same calls",
